@@ -751,8 +751,8 @@ class FastWalk:
         elif op == '*=' and v == ('int', -1) and cur[0] in ('x', 'm'):
             st[name] = (cur[0], -cur[1])
         elif op in ('+=', '-=', '*=', '/=', '%=', '|=', '&=', '^=', '<<=', '>>=') and cur[0] in ('op', 'opadj'):
-            if op == '+=' and cur[0] == 'op' and cur[1] == '%':
-                self.check_mod_adjust(name, r, st)
+            if op in ('+=', '-=') and cur[0] == 'op' and cur[1] == '%':
+                self.check_mod_adjust(name, r if op == '+=' else ('un', '-', r), st)
             st[name] = ('opadj',) + cur[1:]
         else:
             st[name] = ('unk',)
@@ -776,7 +776,32 @@ class FastWalk:
                 return          # mentions something else: not a sign predicate of the operands
         right = 'O' if self.order == 'CObj' else 'C'
         self.events.append(('mod-adjust', 1))
-        guard_nonzero = any(k == '?' + repr(('id', xname)) and v for k, v in getattr(self, 'cur_atoms', {}).items())
+
+        def role_of(n):
+            v = st.get(n)
+            if n == xname:
+                return 'x'
+            if v is not None and self.is_const(v):
+                return 'C'
+            if v is not None and self.is_obj(v):
+                return 'O'
+            return None
+        # Path conditions under which this `+=` is reached (`if (x) { if ((x < 0) ^ (b < 0)) x += b; }`): only tests over the remainder and the two operands take
+        # part; a test over anything else leaves the environment unconstrained.
+        import ast as _ast
+        guards = []
+        for k, truth in getattr(self, 'cur_atoms', {}).items():
+            if not (isinstance(k, str) and k.startswith('?')):
+                continue
+            try:
+                g = _ast.literal_eval(k[1:])
+            except (ValueError, SyntaxError):
+                continue
+            ids = [n for n in X.c_ids(g) if n not in ('likely', 'unlikely')]
+            if ids and all(role_of(n) for n in ids):
+                for n in ids:
+                    roles.setdefault(n, role_of(n))
+                guards.append((g, bool(truth)))
 
         def evaluate(e, env):
             e = self.strip(e)
@@ -785,6 +810,8 @@ class FastWalk:
                 return e[1]
             if k == 'id':
                 return env[e[1]]
+            if k == 'call' and e[1][0] == 'id' and e[1][1] in ('likely', 'unlikely') and len(e[2]) == 1:
+                return evaluate(e[2][0], env)
             if k == 'un':
                 v = evaluate(e[2], env)
                 return {'!': int(not v), '-': -v, '~': ~v, '+': v}[e[1]]
@@ -797,25 +824,48 @@ class FastWalk:
                     raise KeyError(e[1])
                 return f()
             raise KeyError(k)
-        for sx in ((-1, 1) if guard_nonzero else (-1, 0, 1)):
-            for sr in (-1, 1):
+        cov = self.__dict__.setdefault('mod_cov', set())
+        self.mod_sites = getattr(self, 'mod_sites', 0) + 1
+        # a floating-point divisor may be infinite: fmod(a, inf) = a, and a predicate MULTIPLIED with the divisor then gives 0 * inf = NaN
+        mags = (5, float('inf')) if self.is_float else (5,)
+        for sx in (-1, 0, 1):
+            for sr, mag in [(q, m_) for q in (-1, 1) for m_ in mags]:
                 for sl in (-1, 0, 1):
                     vals = {'x': 2 * sx, 'C': None, 'O': None}
-                    rv, lv = 5 * sr, 3 * sl
+                    rv, lv = mag * sr, 3 * sl
                     vals[right] = rv
                     vals['C' if right == 'O' else 'O'] = lv
                     env = {n: vals[role] for n, role in roles.items()}
                     try:
+                        if any(bool(evaluate(g, env)) != truth for g, truth in guards):
+                            continue            # this environment does not reach the statement
                         got = evaluate(rhs, env)
                     except (KeyError, TypeError):
                         return
+                    cov.add((sx, sr, sl))
                     want = rv if (sx != 0 and (sx < 0) != (sr < 0)) else 0
+                    if got != got:
+                        self.problem('modadj', '%s: after `x = left %% right` the floor adjustment `x += %s` adds NaN when the divisor is %sinfinite and the remainder is %s '
+                                     '(a 0/1 flag multiplied with an infinite divisor: 0 * inf); Python\'s %% requires %s there' % (
+                                         self.fname, X.c_text(self.strip(rhs))[:70], '-' if sr < 0 else '+', {-1: 'negative', 0: 'zero', 1: 'positive'}[sx], want))
+                        return
                     if got != want:
                         self.problem('modadj', '%s: after `x = left %% right` the floor adjustment `x += %s` adds %s when the remainder is %s and the divisor (right operand) is %s '
                                      '(left operand %s); Python\'s %% requires %s: the result has the sign of the wrong operand' % (
                                          self.fname, X.c_text(self.strip(rhs))[:70], got, {-1: 'negative', 0: 'zero', 1: 'positive'}[sx],
                                          {-1: 'negative', 1: 'positive'}[sr], {-1: 'negative', 0: 'zero', 1: 'positive'}[sl], want))
                         return
+
+    def check_mod_coverage(self):
+        """A conditional adjustment (`if (pred) x += b;`) is only reached by some sign combinations: every combination that NEEDS the divisor added must reach one."""
+        if not getattr(self, 'mod_sites', 0):
+            return
+        for sx in (-1, 1):
+            for sr in (-1, 1):
+                if (sx < 0) != (sr < 0) and not any((sx, sr, sl) in self.mod_cov for sl in (-1, 0, 1)):
+                    self.problem('modadj', '%s: after `x = left %% right` no floor adjustment is reached when the remainder is %s and the divisor is %s: '
+                                 'Python\'s %% requires the divisor to be added there' % (self.fname, 'negative' if sx < 0 else 'positive', 'negative' if sr < 0 else 'positive'))
+                    return
 
     def named(self, name, v, rhs):
         from . import pC15 as X
@@ -830,6 +880,7 @@ class FastWalk:
         self.labels = {s[1]: i for i, s in enumerate(self.top) if s[0] == 'label'}
         self.results = []
         self._exec_from(0, {}, {})
+        self.check_mod_coverage()
         return self.results
 
     def _exec_from(self, idx, st, atoms):
